@@ -1,6 +1,7 @@
 package c17
 
 import (
+	"encoding/json"
 	"fmt"
 	"os"
 	"os/exec"
@@ -12,6 +13,8 @@ import (
 
 	"github.com/yorkie-team/yorkie/api/types/events"
 	"github.com/yorkie-team/yorkie/server/backend/pubsub"
+
+	"verifharness/kit"
 )
 
 // TestC17ProbeReadySendVsTimeout is NOT part of the check (it is skipped
@@ -31,13 +34,46 @@ func TestC17ProbeReadySendVsTimeout(t *testing.T) {
 	if os.Getenv("C17_PROBE") == "" {
 		t.Skip("demonstration only: set C17_PROBE=1")
 	}
+	published, lost, skip := readySendProbe(20)
+	if skip != "" {
+		t.Skip(skip)
+	}
+	fmt.Printf("publishes=%d dropped_with_empty_buffer=%d\n", published, lost)
+	if lost > 0 {
+		t.Fatalf("%d events were dropped although the send was ready", lost)
+	}
+}
+
+// replayReadySend is the regression form of the probe (known finding F63, repaired):
+// a few seconds of alternating Publish / receive under periodic process stops.
+func replayReadySend(raw json.RawMessage) *kit.Failure {
+	var c struct {
+		Seconds int `json:"seconds"`
+	}
+	_ = json.Unmarshal(raw, &c)
+	if c.Seconds <= 0 {
+		c.Seconds = 5
+	}
+	published, lost, skip := readySendProbe(c.Seconds)
+	if skip != "" {
+		fmt.Println("  (probe skipped: " + skip + ")")
+		return nil
+	}
+	fmt.Printf("  publishes=%d dropped_with_empty_buffer=%d\n", published, lost)
+	if lost > 0 {
+		return kit.Failf("READY-SEND-DROPPED", "%d of %d events were dropped by Publish although the subscriber's buffer was empty and it was reading (the watcher stays subscribed: neither told nor closed)", lost, published)
+	}
+	return nil
+}
+
+func readySendProbe(seconds int) (published, dropped int64, skip string) {
 	// The helper always continues the process after stopping it and ends when
 	// the flag file appears (or the process is gone).
 	flag := fmt.Sprintf("%s/c17-probe-%d.done", os.TempDir(), os.Getpid())
 	helper := exec.Command("sh", "-c", fmt.Sprintf("while [ ! -e %s ] && kill -STOP %d 2>/dev/null; do sleep 0.15; kill -CONT %d; sleep 0.05; done",
 		flag, os.Getpid(), os.Getpid()))
 	if err := helper.Start(); err != nil {
-		t.Skipf("cannot start the helper: %v", err)
+		return 0, 0, fmt.Sprintf("cannot start the helper: %v", err)
 	}
 	defer func() {
 		_ = os.WriteFile(flag, nil, 0o644)
@@ -45,7 +81,7 @@ func TestC17ProbeReadySendVsTimeout(t *testing.T) {
 		_ = os.Remove(flag)
 	}()
 	var lost, sent atomic.Int64
-	deadline := gotime.Now().Add(20 * gotime.Second)
+	deadline := gotime.Now().Add(gotime.Duration(seconds) * gotime.Second)
 	var wg sync.WaitGroup
 	for w := 0; w < runtime.GOMAXPROCS(0); w++ {
 		wg.Add(1)
@@ -67,8 +103,5 @@ func TestC17ProbeReadySendVsTimeout(t *testing.T) {
 		}()
 	}
 	wg.Wait()
-	fmt.Printf("publishes=%d dropped_with_empty_buffer=%d\n", sent.Load()+lost.Load(), lost.Load())
-	if lost.Load() > 0 {
-		t.Fatalf("%d events were dropped although the send was ready", lost.Load())
-	}
+	return sent.Load() + lost.Load(), lost.Load(), ""
 }
